@@ -2887,6 +2887,24 @@ def r109(ctx: Ctx) -> RuleReport:
     allowed = set(dir(_b)) | {'__name__', '__file__', '__doc__', '__package__', '__spec__', '__loader__', '__builtins__', '__path__', '__class__',
                               '__qualname__', '__module__', '__annotations__', '__debug__', '__dict__'}
     n = 0
+    # functions that only serve the display methods (greatest fixed point over the callers, as in R96)
+    callers_: Dict[str, Set[str]] = {}
+    for f in ctx.repo.all_functions():
+        for c in ctx.cg.callees(f):
+            callers_.setdefault(c.fq, set()).add(f.fq)
+    disp = {f.fq for f in ctx.repo.all_functions() if f.name.startswith('_') and not f.name.startswith('__') and callers_.get(f.fq)}
+    ch_ = True
+    while ch_:
+        ch_ = False
+        for fq_ in sorted(disp):
+            cs = callers_.get(fq_, set()) - {fq_}
+            if not cs or not all(c in disp or c.rsplit('.', 1)[-1] in ('__repr__', '__str__') for c in cs):
+                disp.discard(fq_)
+                ch_ = True
+    display_scopes = set()
+    for f in ctx.repo.all_functions():
+        if f.fq in disp or f.name in ('__repr__', '__str__'):
+            display_scopes.add((f.module.name, f.name, f.node.lineno))
     for m in ctx.repo.modules.values():
         src_tree = ast.parse(m.source)
         if any(isinstance(x, ast.ImportFrom) and any(a.name == '*' for a in x.names) for x in ast.walk(src_tree)):
@@ -2905,9 +2923,25 @@ def r109(ctx: Ctx) -> RuleReport:
             for sy in t.get_symbols():
                 if sy.is_declared_global() and sy.is_assigned():
                     mod_names.add(sy.get_name())
+        # annotations that are never evaluated: those of local variables, and every annotation under `from __future__ import annotations`
+        future = any(isinstance(x, ast.ImportFrom) and x.module == '__future__' and any(a.name == 'annotations' for a in x.names) for x in src_tree.body)
+        dead = set()
+        for f_ in ast.walk(src_tree):
+            if isinstance(f_, (ast.FunctionDef, ast.AsyncFunctionDef)):
+                for x in ast.walk(f_):
+                    if isinstance(x, ast.AnnAssign) and x is not f_:
+                        dead |= {id(y) for y in ast.walk(x.annotation)}
+                if future:
+                    for a_ in f_.args.posonlyargs + f_.args.args + f_.args.kwonlyargs + [f_.args.vararg, f_.args.kwarg]:
+                        if a_ is not None and a_.annotation is not None:
+                            dead |= {id(y) for y in ast.walk(a_.annotation)}
+                    if f_.returns is not None:
+                        dead |= {id(y) for y in ast.walk(f_.returns)}
+            if future and isinstance(f_, ast.AnnAssign):
+                dead |= {id(y) for y in ast.walk(f_.annotation)}
         by_line = {}
         for x in ast.walk(src_tree):
-            if isinstance(x, ast.Name) and isinstance(x.ctx, ast.Load):
+            if isinstance(x, ast.Name) and isinstance(x.ctx, ast.Load) and id(x) not in dead:
                 by_line.setdefault(x.id, []).append(x.lineno)
         for t in [top] + tables:
             bad_before = len(rep.violations())
@@ -2933,6 +2967,10 @@ def r109(ctx: Ctx) -> RuleReport:
                 if not lines:
                     continue
                 where = f'{t.get_type()} {t.get_name()}' if t is not top else 'module level'
+                if t is not top and (m.name, t.get_name(), t.get_lineno()) in display_scopes:
+                    rep.add(f'{m.name}: `{nm}` read in {where}', f'{m.relpath}:{lines[0]}', 'info',
+                            f'`{nm}` is not bound, but {t.get_name()} is only reached from __str__ / __repr__: no property speaks about the display form')
+                    continue
                 rep.violation(f'{m.name}: `{nm}` read in {where}', f'{m.relpath}:{lines[0]}',
                               f'`{nm}` is read in {where} but nothing binds it: not a local or parameter, not a name of an enclosing function, not defined or '
                               f'imported at module level, not a builtin; evaluating it raises NameError in place of the documented result')
